@@ -75,6 +75,13 @@ func run(cfg lib.Cfg) error {
 	for k, v := range notes {
 		out.Notes[k] = v
 	}
+	re, err := rows.ReentrantCases(r.Fork(), 9)
+	if err != nil {
+		return fmt.Errorf("two destinations: %w", err)
+	}
+	for _, k := range re {
+		out.Add(k)
+	}
 	sh, snotes, err := rows.SharedCases(r.Fork(), 4, false)
 	if err != nil {
 		return fmt.Errorf("shared client: %w", err)
